@@ -1652,10 +1652,22 @@ func (b *Bitmap) unmarshalPilosaRoaring(data []byte) error {
 	headerSize := headerBaseSize
 	b.Containers.ResetN(int(keyN))
 	// Descriptive header section: Read container keys and cardinalities.
+	var prevKey uint64
 	for i, buf := 0, data[headerSize:]; i < int(keyN); i, buf = i+1, buf[12:] {
+		key := binary.LittleEndian.Uint64(buf[0:8])
+		typ := binary.LittleEndian.Uint16(buf[8:10])
+		// Containers are attached to their data in key order below, so
+		// the keys must be stored in strictly ascending order.
+		if i > 0 && key <= prevKey {
+			return fmt.Errorf("malformed bitmap, container keys out of order: %d after %d", key, prevKey)
+		}
+		prevKey = key
+		if typ != uint16(containerArray) && typ != uint16(containerBitmap) && typ != uint16(containerRun) {
+			return fmt.Errorf("malformed bitmap, unknown container type %d for key %d", typ, key)
+		}
 		b.Containers.PutContainerValues(
-			binary.LittleEndian.Uint64(buf[0:8]),
-			byte(binary.LittleEndian.Uint16(buf[8:10])),
+			key,
+			byte(typ),
 			int(binary.LittleEndian.Uint16(buf[10:12]))+1,
 			true)
 	}
@@ -5295,7 +5307,10 @@ func readOffsets(b *Bitmap, data []byte, pos int, keyN uint32) error {
 		}
 
 		// Map byte slice directly to the container data.
-		citer.Next()
+		// There are fewer containers than keys if a key was repeated.
+		if !citer.Next() {
+			return fmt.Errorf("malformed bitmap, %d distinct keys for %d containers", i, keyN)
+		}
 		_, c := citer.Value()
 		avail := len(data) - int(offset)
 		switch c.typ() {
@@ -5322,7 +5337,10 @@ func readWithRuns(b *Bitmap, data []byte, pos int, keyN uint32) error {
 	}
 	citer, _ := b.Containers.Iterator(0)
 	for i := 0; i < int(keyN); i++ {
-		citer.Next()
+		// There are fewer containers than keys if a key was repeated.
+		if !citer.Next() {
+			return fmt.Errorf("malformed bitmap, %d distinct keys for %d containers", i, keyN)
+		}
 		_, c := citer.Value()
 		switch c.typ() {
 		case containerRun:
